@@ -54,6 +54,7 @@ type docOut struct {
 	Doc    string      `json:"doc"`
 	From   string      `json:"from,omitempty"`
 	Called bool        `json:"called"`
+	Null   bool        `json:"null,omitempty"`
 	Str    *string     `json:"str,omitempty"`
 	U64    *string     `json:"u64,omitempty"`
 	I64    *string     `json:"i64,omitempty"`
@@ -370,6 +371,9 @@ func planFor(r *rand.Rand, fd *FileDef, e *EnumDef, mode string) *enumPlan {
 				}
 			}
 		}
+		// the literal null: json.Unmarshal "reads" "" and 0 from it; YAML null never reaches the decoder
+		p.JDocs = append(p.JDocs, "null", " null ")
+		p.YDocs = append(p.YDocs, "null", "~")
 		words = uniq(words)
 		sort.Strings(words)
 		numeric := func(w string) bool {
